@@ -29,6 +29,7 @@ type Mod struct {
 	N     int    `json:",omitempty"`
 	Other int    `json:",omitempty"` // splice partner
 	Label string `json:",omitempty"`
+	Raw   []byte `json:",omitempty"` // xor: mask applied from byte Pos (absolute, modulo the length) onwards (native fuzzing)
 }
 
 type Plan struct {
@@ -230,6 +231,26 @@ func runPlan(pl Plan) (res vfx.Result) {
 		}
 		desc = fmt.Sprintf("set byte %d (%s) %d -> %d", i, fieldAt(lay, i), old, mod[i])
 		if i == lay.version && old <= 1 && mod[i] <= 1 {
+			known = "C14-version-byte"
+		}
+	case "xor":
+		if len(mod) == 0 || len(m.Raw) == 0 {
+			return res
+		}
+		for i, x := range m.Raw {
+			mod[(m.Pos+i)%len(mod)] ^= x
+		}
+		if bytes.Equal(mod, genuine) {
+			return res
+		}
+		desc = fmt.Sprintf("xor mask of %d bytes from byte %d", len(m.Raw), m.Pos%len(mod))
+		onlyVersion := true
+		for i := range mod {
+			if i != lay.version && mod[i] != genuine[i] {
+				onlyVersion = false
+			}
+		}
+		if onlyVersion && mod[lay.version] <= 1 && genuine[lay.version] <= 1 {
 			known = "C14-version-byte"
 		}
 	case "version-flip":
